@@ -3,12 +3,15 @@ Q_HEADER = "From KV Require Import base.Tac queue.Queue queue.QueueCheck.\nOpen 
 
 PROP = {
     'translators': ['t_queue'],
-    'coq_targets': ['props/C09.vo', 'queue/QueueCheck.vo', 'queue/TaskName.vo'],
+    'coq_targets': ['props/C09.vo', 'queue/QueueCheck.vo', 'queue/TaskName.vo', 'queue/FollowCheck.vo'],
     'props_file': 'props/C09.v',
     'checker_vo': 'queue/QueueCheck.vo',
     'scenario': 'c09',
     'evals': ['agrees', 'c09_ok'],
     'extra': {'quick': {'sequences': 400}, 'thorough': {'sequences': 8000}},
+    # second scenario: follow-up completeness on the running system (queue/FollowCheck.v)
+    'extra_scenarios': [{'scenario': 'followups', 'evals': ['follow_ok'],
+                         'extra': {'quick': {'histories': 2, 'ops': 40}, 'thorough': {'histories': 12, 'ops': 80}}}],
     'replay_header': Q_HEADER,
     'replay_footer': "Eval vm_compute in (failing agrees base_index cases).\nEval vm_compute in (failing c09_ok base_index cases).",
     'stats_keys': ['sequences', 'task_name_pairs_checked'],
@@ -21,7 +24,7 @@ PROP = {
 }
 
 META = {
-    'text': 'Theorems (Coq, closed under the global context) about a model of the persistent task queue, for every queue state, operation sequence and number of running tasks: earliest-due-first claim, claim-none iff nothing due, soonest-time rule, IfMissing law, names are never dropped except by finish, restart re-queues everything that was running, recurring tasks are pending after every start; follow-up completeness and recurring-never-Done over tables regenerated from mq.rs/scheduler.rs. Tied to the code by the regenerated tables (proof obligations GenQueue_*_agree) and by a correspondence run of the real Queue/TaskQueue (memory and disk) whose every observed transition is checked inside Coq against the model and against the executable form of the theorems.',
+    'text': 'Theorems (Coq, closed under the global context) about a model of the persistent task queue, for every queue state, operation sequence and number of running tasks: earliest-due-first claim, claim-none iff nothing due, soonest-time rule, IfMissing law, names are never dropped except by finish, restart re-queues everything that was running, recurring tasks are pending after every start; follow-up completeness and recurring-never-Done over tables regenerated from mq.rs/scheduler.rs. Tied to the code by the regenerated tables (proof obligations GenQueue_*_agree) and by a correspondence run of the real Queue/TaskQueue (memory and disk) whose every observed transition is checked inside Coq against the model and against the executable form of the theorems (proved sound for the model: step_meets_oracle, agrees_meets_oracle). Second scenario (followups): on a running in-process Krill the queue is emptied before every CA / TA-proxy command, start and publication; the stored events and the tasks pending afterwards are checked in Coq (queue/FollowCheck.v: follow_ok) against the same follow-up table the theorems are stated over - every required follow-up pending, the local child told to sync, recurring tasks and per-CA parent syncs pending after every start (also without any CA), an RRDP update pending after every publication (also while one is running).',
     'design_ref': 'DESIGN.md section 5 C09',
     'note': 'Trusted: Coq kernel + vm_compute; translator t_queue.py; harness abstraction (clock readings renamed order-preservingly; store listing order treated as arbitrary). Modelled not verified: src/commons/queue.rs, TaskQueue layer of src/server/mq.rs, result handling of scheduler.rs. Outside: OS scheduling of the scheduler thread, process::exit paths, cut points inside one store transaction (C08).',
     'technique': 'Coq proof over queue model (induction over operation lists) + translator-generated tables + correspondence evaluated in Coq',
